@@ -1,5 +1,7 @@
 //! lrv-chip: behavioural SPI-level chip models (SX126x, SX127x) and the monitors that need them
 //! (C18 receive-buffer safety, C14 driver/chip state agreement).
+// data-sheet constants and model fields that no monitor reads yet are kept on purpose
+#![allow(dead_code)]
 mod bus;
 mod c14;
 mod c18;
